@@ -90,6 +90,54 @@ def base_program(seed, std, rng, variant):
     return "\n".join(lines) + "\n"
 
 
+def corrupt_statement(text, v):
+    """one systematic corruption of a statement (what a slip of the editor produces); None if not applicable"""
+    import layout
+    toks = layout.split_tokens(text)
+    if v == 0:
+        i = text.rfind(")")
+        return None if i < 0 else text[:i] + text[i + 1:]
+    if v == 1:
+        i = text.find("(")
+        return None if i < 0 else text[:i] + text[i + 1:]
+    if v == 2:
+        return text[:max(1, (len(text) * 3) // 5)] if len(text) > 4 else None
+    if v == 3:
+        return text[:toks[-1][0]].rstrip() if len(toks) > 1 else None
+    if v == 4:
+        i = text.find("(")
+        return None if i < 0 else text[:i + 1] + "," + text[i + 1:]
+    if v == 5:
+        return text[toks[1][0]:] if len(toks) > 1 else None          # first token lost
+    if v == 6:
+        i = text.find(",")
+        return None if i < 0 else text[:i] + ",," + text[i + 1:]
+    if v == 7:
+        i = text.find("=")
+        return None if i < 0 else text[:i] + text[i + 1:]
+    return None
+
+
+NCORRUPT = 8
+
+
+def systematic_jobs(seed, std, nprog):
+    """every statement of nprog generated programs x every corruption: the rest of the program is intact"""
+    jobs = []
+    for p in range(nprog):
+        st, _ = gen.gen_program(seed * 59 + p, std, size=0.5)
+        lines = [s.line() for s in st]
+        for i, s in enumerate(st):
+            for v in range(NCORRUPT):
+                c = corrupt_statement(s.text, v)
+                if c is None or c == s.text:
+                    continue
+                t = s.copy()
+                t.text = c
+                jobs.append((std, "\n".join(lines[:i] + [t.line()] + lines[i + 1:]) + "\n", (p + i) % 2 == 1))
+    return jobs
+
+
 def random_text(rng):
     out = []
     for _ in range(rng.randrange(1, 8)):
@@ -181,6 +229,9 @@ def run(ctx):
             if k % 7 != 0:           # one in seven is left unmutated (valid programs must not escape either)
                 src = mutate_text(src, rng)
         jobs.append((std, src, k % 2 == 1))
+    nrand = len(jobs)
+    for std in ("f2003", "f2008"):
+        jobs += systematic_jobs(ctx.seed, std, ctx.n(4, 60))
     res = pool.pmap(run_one, jobs, chunksize=20)
     failures = []
     hist = {}
@@ -212,7 +263,9 @@ def run(ctx):
             failures.append((r[1], "file with inserted bytes: " + r[1], dict(bytes_hex=job[0].hex(), std=job[1])))
     e2e = dict(cases=len(jobs) + len(fjobs), distinct=len(set(j[1] for j in jobs)), failures=failures,
                outcome_histogram=hist,
-               rule="1-3 token/character/line mutations (delete, duplicate, swap, replace by punctuation/keywords, "
+               systematic_corruptions=len(jobs) - nrand,
+               rule="EVERY statement of generated programs x 8 systematic corruptions (last ')' / first '(' / first '=' "
+                    "deleted, truncated, last or first token lost, stray or doubled comma); 1-3 token/character/line mutations (delete, duplicate, swap, replace by punctuation/keywords, "
                     "insert a character) of generated programs and unstructured text over the Fortran character "
                     "set, both standards, comments kept or dropped, %d s alarm per input; files with invalid UTF-8 "
                     "through FortranFileReader; escapes are keyed by exception type and innermost fparser frames"
